@@ -176,7 +176,10 @@ class Assembler:
                 raise Unspecified("expansion size")
             self._cur_st = st
             k = st["k"]
-            if k in ("org", "reloc", "label", "ins", "data", "ascii", "text", "incbin", "ips"):
+            if k == "text":
+                # the table is the one selected where the statement stands (a later .table of the same scope does not reach back)
+                self.items.append((k, scope, dict(st, _tbl=(scope.get_table(),))))
+            elif k in ("org", "reloc", "label", "ins", "data", "ascii", "incbin", "ips"):
                 self.items.append((k, scope, st))
             elif k == "table":
                 scope.table = self.files[st["f"]]
@@ -278,7 +281,7 @@ class Assembler:
         if k == "incbin":
             return len(self.files[st["f"]])
         if k == "text":
-            tbl = scope.get_table()
+            tbl = st["_tbl"][0] if "_tbl" in st else scope.get_table()
             if tbl is None:
                 raise Reject("no table in scope")
             return len(T.encode(tbl, st["s"]))
@@ -451,7 +454,7 @@ class Assembler:
         if k == "incbin":
             return self.files[st["f"]]
         if k == "text":
-            return T.encode(scope.get_table(), st["s"])
+            return T.encode(st["_tbl"][0] if "_tbl" in st else scope.get_table(), st["s"])
         if k == "ins":
             m = st["m"].lower()
             prefix, inner, outer = st["shape"]
